@@ -382,12 +382,20 @@ func (r *rewriter) rewriteCall(c *astutil.Cursor, call *ast.CallExpr) {
 				st.Ambient++
 			case ambientRefused[q]:
 				fatal("ambient input %s at %s cannot be simulated", q, r.pos(call))
+			case pn.Imported().Path() == "sync/atomic" && len(call.Args) > 0:
+				// atomic.AddInt32(&x, 1) -> atomic.AddInt32(simrt.AY(site, &x), 1): yield before the operation
+				call.Args[0] = &ast.CallExpr{Fun: sel("simrt", "AY"), Args: []ast.Expr{r.site(), call.Args[0]}}
+				r.changed = true
+				st.Sync++
 			}
 			return
 		}
 	}
 	s := r.p.TypesInfo.Selections[se]
 	if s == nil || s.Kind() != types.MethodVal {
+		return
+	}
+	if r.atomicMethod(call, se, s) {
 		return
 	}
 	tn, isPtr, ok := syncRecv(s)
@@ -438,6 +446,40 @@ func (r *rewriter) rewriteCall(c *astutil.Cursor, call *ast.CallExpr) {
 	}
 	r.changed = true
 	st.Sync++
+}
+
+// atomicMethod: x.Load() on a sync/atomic type -> simrt.AY(site, &x).Load()
+func (r *rewriter) atomicMethod(call *ast.CallExpr, se *ast.SelectorExpr, s *types.Selection) bool {
+	f, isFunc := s.Obj().(*types.Func)
+	if !isFunc {
+		return false
+	}
+	sig := f.Type().(*types.Signature)
+	if sig.Recv() == nil {
+		return false
+	}
+	rt := sig.Recv().Type()
+	if pt, ok := rt.(*types.Pointer); ok {
+		rt = pt.Elem()
+	}
+	named, isNamed := rt.(*types.Named)
+	if !isNamed || named.Obj().Pkg() == nil || named.Obj().Pkg().Path() != "sync/atomic" {
+		return false
+	}
+	var obj ast.Expr = se.X
+	if len(s.Index()) > 1 {
+		var p bool
+		obj, p = r.embeddedPath(se.X, s)
+		if !p {
+			obj = &ast.UnaryExpr{Op: token.AND, X: obj}
+		}
+	} else if _, isPtr := s.Recv().(*types.Pointer); !isPtr {
+		obj = &ast.UnaryExpr{Op: token.AND, X: se.X}
+	}
+	se.X = &ast.CallExpr{Fun: sel("simrt", "AY"), Args: []ast.Expr{r.site(), obj}}
+	r.changed = true
+	st.Sync++
+	return true
 }
 
 func syncRecv(s *types.Selection) (name string, isPtr bool, ok bool) {
